@@ -48,6 +48,34 @@ def build_lp(eng, hdr, fragment):
     return tobytes(pk.encode())
 
 
+LP_TYPES = {'frag_index': 0x52, 'frag_count': 0x53, 'pit_token': 0x62, 'nack': 0x0320, 'incoming_face_id': 0x032C,
+            'next_hop_face_id': 0x0330, 'cache_policy': 0x0334, 'congestion_mark': 0x0340, 'ack': 0x0344,
+            'tx_sequence': 0x0348, 'non_discovery': 0x034C, 'prefix_announcement': 0x0350}
+
+
+def canonical_lp(eng, hdr, fragment):
+    """the envelope as a forwarder sends it: written by the harness's own writer (not the library's encoder), header
+    fields in increasing type-number order as NDNLPv2 prescribes, Fragment last"""
+    body = []
+    for k in sorted(hdr, key=lambda k: LP_TYPES[k]):
+        x = hdr[k]
+        t = LP_TYPES[k]
+        if k == 'nack':
+            val = mg.w_tlv(0x0321, mg.w_uint(x, None)) if x is not None else []
+        elif k == 'cache_policy':
+            val = mg.w_tlv(0x0335, mg.w_uint(x, None))
+        elif k in ('pit_token', 'ack', 'tx_sequence', 'prefix_announcement'):
+            val = blist(x)
+        elif k == 'non_discovery':
+            val = []
+        else:
+            val = mg.w_uint(x, None)
+        body += mg.w_tlv(t, val)
+    if fragment is not None:
+        body += mg.w_tlv(0x50, blist(fragment))
+    return bwrap(mg.w_tlv(0x64, body))
+
+
 def sym_headers(eng, allow=('incoming_face_id', 'next_hop_face_id', 'congestion_mark', 'cache_policy', 'tx_sequence',
                             'ack', 'non_discovery', 'prefix_announcement')):
     hdr = {}
@@ -88,6 +116,22 @@ def h_codec(eng, case):
             if k in ('incoming_face_id', 'next_hop_face_id', 'congestion_mark'):
                 eng.check(getattr(v, k) == x, 'lp-roundtrip')
         eng.check(v.nack is None, 'lp-roundtrip')
+        # the same headers in a canonical (increasing type order) envelope, together with a Nack header
+        hdr2 = dict(hdr)
+        hdr2['nack'] = reason
+        if 'ack' in hdr2 and 'tx_sequence' in hdr2:
+            del hdr2['ack']
+        w4 = canonical_lp(eng, hdr2, interest)
+        v4 = enc.parse_lp_packet_v2(w4)
+        eng.check(And(v4.nack is not None, beq(v4.fragment, interest), beq(v4.pit_token, token)), 'canonical-envelope',
+                  sig='header-lost')
+        if v4.nack is not None:
+            eng.check(v4.nack.nack_reason == reason, 'canonical-envelope', sig='reason')
+        for k, x in hdr2.items():
+            if k in ('incoming_face_id', 'next_hop_face_id', 'congestion_mark'):
+                eng.check(getattr(v4, k) is not None and getattr(v4, k) == x, 'canonical-envelope', sig='header-lost:' + k)
+        r4, f4 = enc.parse_lp_packet(w4)
+        eng.check(And(r4 is not None, r4 == reason, beq(f4, interest)), 'canonical-envelope', sig='parse_lp_packet')
         # one unknown header inserted in front of the fragment: ignored
         form = case['unk_form']
         if form:
@@ -167,7 +211,7 @@ def h_equiv(eng, case):
     }
     typ, x = kinds[case['kind']]
     hdr = sym_headers(eng, case['headers'])
-    wrapped = build_lp(eng, hdr, x)
+    wrapped = canonical_lp(eng, hdr, x) if case.get('canonical', True) else build_lp(eng, hdr, x)
     calls, outcomes = [], {}
     appA, faceA, consA = _mk_state(front, eng, calls, outcomes, 'bare')
     appB, faceB, consB = _mk_state(front, eng, calls, outcomes, 'lp')
@@ -219,6 +263,8 @@ def h_nack(eng, case):
     reason = eng.int('reason', 0, 2 ** 64 - 1)
     hdr = sym_headers(eng, case['headers'])
     hdr['nack'] = reason
+    if case.get('token'):
+        hdr['pit_token'] = eng.bytes('token', case['token'])
     which = case['target']            # 'pending' : the pending Interest's own bytes ; 'other' : another name
 
     async def main(loop):
@@ -226,7 +272,7 @@ def h_nack(eng, case):
         await asyncio.sleep(0)
         sent = face.out[-1]
         frag = sent if which == 'pending' else bytes(enc.make_interest('/a/c', enc.InterestParam(nonce=9)))
-        w = build_lp(eng, hdr, frag)
+        w = canonical_lp(eng, hdr, frag) if case.get('canonical', True) else build_lp(eng, hdr, frag)
         await vloop.sleep_until(loop, loop.at_ms(5))
         try:
             await app._receive(0x64, w)
@@ -314,7 +360,7 @@ def h_tokens(eng, case):
             if toks[i] is None:
                 await app._receive(5, ints[i])
             else:
-                await app._receive(0x64, build_lp(eng, {'pit_token': toks[i]}, ints[i]))
+                await app._receive(0x64, canonical_lp(eng, {'pit_token': toks[i], 'congestion_mark': 1}, ints[i]))
             for _ in range(3):
                 await asyncio.sleep(0)
         res = {}
@@ -374,7 +420,9 @@ def cases(tier, seed):
                 cs.append(('equiv', {'front': front, 'kind': kind, 'headers': hs}, {'weight': 5}))
         for target in ('pending', 'other'):
             for hs in ([], H1):
-                cs.append(('nack', {'front': front, 'target': target, 'headers': hs}, {'weight': 3}))
+                for tok in (0, 4) if front == 'v2' or hs == [] else (0,):
+                    cs.append(('nack', {'front': front, 'target': target, 'headers': hs, 'token': tok}, {'weight': 3}))
+                cs.append(('nack', {'front': front, 'target': target, 'headers': hs, 'canonical': False}, {'weight': 3}))
         cs.append(('frag', {'front': front}, {'weight': 3}))
     for l0 in (None, 0, 2, 4, 32):
         for l1 in (None, 0, 2, 4, 32):
